@@ -70,9 +70,10 @@ Deposit(an, bn, amt) ==
   IN IF te # "ok" THEN Fail(a, te)
      ELSE IF se # "ok" THEN Fail(a, se)
      ELSE IF Disabled(an) \/ InRecv(an) THEN Fail(a, "AccountDisabled")
-     ELSE IF amt = 0 THEN Do(a, "ok", st, Obs(st, {bn}, {an}, {}))
      ELSE LET b1 == ImplAccrue(b0, g, Now) IN
           IF IsErr(b1) THEN Fail(a, b1.err)
+          \* a zero deposit returns right after the accrual (no position, no transfer, no cache refresh)
+          ELSE IF amt = 0 THEN LET post0 == [st EXCEPT !.banks[bn] = b1] IN Do(a, "ok", post0, Obs(post0, {bn}, {an}, {}))
           ELSE LET foc == FindOrCreate(ac.bal, bn, b1.key, b1.cfg.asset_tag, Now) IN
                IF IsErr(foc) THEN Fail(a, foc.err)
                ELSE LET r == ImplIncrease(b1, foc[1], foc[2], FOfInt(amt), "DepositOnly", Now) IN
